@@ -5,6 +5,8 @@
  (s) source / reference assignment: for a program whose files each carry lints, every assignment of the files to sources and
      `-R` references (including the one with no source at all), in two file orders, gives the same verdict and the same multiset of diagnostics
      (code, severity, message, file:row:col); only the split of the request changes;
+ (sg) the same assignments with a capturing generator (accepted programs, one of them with a file that declares a module and
+     nothing else): the request has the same length and, apart from the two sequence sizes, the same multiset of bytes in every assignment;
  (o) file order on the command line: the multiset of diagnostics and the per-file content of the request (each encoded file as a
      byte string, sources and references taken together) do not depend on the order of the source files.
 
@@ -32,6 +34,11 @@ PROGRAMS = {
         "a.slice": "module A\nstruct S { x: int32, tag(1) y: string? }\nenum E : uint8 { X, Y = 7 }\n",
         "b.slice": "module B\ninterface I { op(s: A::S, e: A::E) -> (r: Sequence<A::S>, d: Dictionary<string, A::E>) }\n",
         "c.slice": "module A::C\ntypealias L = Sequence<A::S>\n[cs::attr(\"x\", y)] custom K\n",
+    },
+    "file-without-definitions": {
+        "main.slice": "module Demo\nstruct Point { x: int32 y: int32 }\n",
+        "platform.slice": "[[demo::note(\"platform-specific\")]]\nmodule Demo::Platform\n#if WINDOWS\nstruct Handle { value: uint64 }\n#endif\n",
+        "empty.slice": "module Demo::Nothing\n",
     },
     "error-in-one-file": {
         "ok.slice": "module M\n/// {@link Gone}\nstruct Fine {}\n",
@@ -117,6 +124,10 @@ def run(ctx):
                         assigns.append((src, ref))
                 futs = [ex.submit(execute, files, s, r, False) for (s, r) in assigns]
                 jobs.append(("s", pname, assigns, futs))
+                # (sg) the same assignments with a generator: the request carries the same files, only split differently
+                if pname != "error-in-one-file":
+                    futs = [ex.submit(execute, files, s, r, True) for (s, r) in assigns]
+                    jobs.append(("sg", pname, assigns, futs))
                 # (o) every order of the sources, with a generator
                 perms = list(itertools.permutations(names))
                 futs = [ex.submit(execute, files, list(p), [], True) for p in perms]
@@ -144,6 +155,25 @@ def run(ctx):
                                                   "exit status / diagnostics differ from the assignment sources=%s: %d vs %d diagnostics, exit %d vs %d; only here: %r" % (
                                                       ",".join(info[0][0]), len(d[1]), len(base_d[1]), d[0], base_d[0],
                                                       [x for x in d[1] if x not in base_d[1]][:2] + [x for x in base_d[1] if x not in d[1]][:2])])
+                            break
+                elif kind == "sg":
+                    # every encoded file is a byte string that does not depend on where the file stands: the request of every
+                    # assignment has the same length and the same multiset of bytes (files move between two sequences, nothing else)
+                    def shape(r, src, ref):
+                        req = r[3].get("g2")
+                        if req is None:
+                            return (r[0], None, None)
+                        body = sorted(req)
+                        for count in (len(src), len(ref)):          # the two sequence sizes (one byte each below 64 files)
+                            if (count << 2) in body:
+                                body.remove(count << 2)
+                        return (r[0], len(req), body)
+                    base_d = shape(results[0], *info[0])
+                    for (src, ref), r in zip(info, results):
+                        if shape(r, src, ref) != base_d:
+                            res["oracle"].append([case + " sources=%s references=%s" % (",".join(src), ",".join(ref)),
+                                                  "the generator request differs from the assignment sources=%s in more than the split: exit %s vs %s, %s vs %s bytes" % (
+                                                      ",".join(info[0][0]), r[0], base_d[0], shape(r, src, ref)[1], base_d[1])])
                             break
                 else:
                     base_d = (results[0][0], diag_multiset(results[0][2]), len(results[0][3].get("g1", b"")), results[0][3].get("g2") is not None)
